@@ -8,7 +8,8 @@
 //! the same type (the same `$n` used twice); the bound value is the original literal, another value of the site's type,
 //! or a NULL of that type (LIMIT/OFFSET: non-negative integers only). Placeholders are positional (`$1…`) or named
 //! (`$p1…`). Sites that must stay literal are never replaced: GROUP BY keys and their copies in the select list / HAVING
-//! (the planner matches them structurally), offsets / n of window functions, VALUES rows.
+//! (the planner matches them structurally), offsets / n of window functions, VALUES rows, divisors and their NULLIF guards
+//! (another value there would introduce a fallible operation).
 //!
 //! Routes (all inside one fresh SessionContext): A `PREPARE p[(declared types)] AS q; EXECUTE p(v…)` (positional only),
 //! B `ctx.sql(q).await?.with_param_values(ParamValues)` + collect, C `LogicalPlan::with_param_values` on the planned
@@ -23,6 +24,13 @@
 //! fallible operation, a run-time error of a route whose literal form succeeds is a violation. On a row mismatch the
 //! reference evaluator arbitrates: when it agrees with the *route* (the literal form is the wrong one) the case is a
 //! discard "literal form disagrees with the reference" — that is C01's subject, not parameter binding.
+//!
+//! Known finding `prepare-optimized-twice` (genuine): PREPARE stores the optimized plan, EXECUTE binds the values and the plan is
+//! optimized a second time with a fresh alias generator, so the `__common_expr_N` columns of the first common-subexpression pass
+//! collide with those of the second: wrong values (`concat($1, s), $1 = s` returns (zz, true) for $1 = 'a', s = 'z') or
+//! `Internal error: WHEN expression did not return a BooleanArray`. Signature (outcome-keyed): the PREPARE route fails and the
+//! PREPARE-optimized plan contains a `__common_expr_` alias. Fix: /verif/fixes/C41-prepare-must-not-store-optimized-plan.diff.
+//! Observation (label `numeric-type-drift`): with an untyped placeholder `abs($1) + id UNION ..` is planned as DOUBLE (0.0 instead of 0).
 //!
 //! Non-trivial: ≥ 2 placeholders in different clause kinds, at least one route compared, result non-empty.
 //!
@@ -107,9 +115,12 @@ fn walk_expr(e: &mut Expr, w: &Where, keys: &[Expr], f: &mut Visit<'_>) {
     }
     match e {
         Expr::Lit(_) | Expr::Null(_) | Expr::Col { .. } => {}
-        Expr::Bin(_, l, r) => {
+        Expr::Bin(op, l, r) => {
             walk_expr(l, w, keys, f);
-            walk_expr(r, w, keys, f);
+            // a divisor (and its NULLIF(.., 0) guard) stays literal: binding another value there would make the query fallible
+            if !matches!(op, refsql::BinOp::Div | refsql::BinOp::Mod) {
+                walk_expr(r, w, keys, f);
+            }
         }
         Expr::Not(x) | Expr::Neg(x) | Expr::Cast(x, _) => walk_expr(x, w, keys, f),
         Expr::Grouping(_) => {}
@@ -501,17 +512,13 @@ async fn route_plan(ctx: &SessionContext, case: &Case, psql: &str) -> Result<Row
     collect(ctx.execute_logical_plan(plan).await.map_err(plan_err)?).await
 }
 
-/// the optimizer (as run by PREPARE) extracts a placeholder as a common sub-expression: `$1 AS __common_expr_N`
-async fn cse_extracts_placeholder(ctx: &SessionContext, case: &Case, psql: &str) -> bool {
+/// PREPARE stores the *optimized* plan and EXECUTE optimizes it again: common-subexpression aliases (`__common_expr_N`) created
+/// by the first pass collide with those of the second pass (each pass numbers from 1)
+async fn prepared_plan_has_cse_aliases(ctx: &SessionContext, case: &Case, psql: &str) -> bool {
     let state = ctx.state();
     let Ok(plan) = state.create_logical_plan(&prepare_sql(case, psql)).await else { return false };
     let Ok(opt) = state.optimize(&plan) else { return false };
-    let text = opt.display_indent().to_string();
-    text.match_indices(" AS __common_expr_").any(|(i, _)| {
-        let head = &text[..i];
-        let tok = head.rsplit(|c: char| c == ' ' || c == ',' || c == '(').next().unwrap_or("");
-        tok.starts_with('$')
-    })
+    opt.display_indent().to_string().contains("__common_expr_")
 }
 
 struct Observed {
@@ -617,7 +624,7 @@ fn evaluate_uncached(case: &Case, sig: &mut Option<String>) -> CaseResult {
                 routes.push(("dataframe", route_dataframe(&ctx, &case2, &psql2).await));
                 routes.push(("plan", route_plan(&ctx, &case2, &psql2).await));
             }
-            let cse_placeholder = if case2.named { false } else { cse_extracts_placeholder(&ctx, &case2, &psql2).await };
+            let cse_placeholder = if case2.named { false } else { prepared_plan_has_cse_aliases(&ctx, &case2, &psql2).await };
             Observed { literal, routes, cse_placeholder }
         });
         let obs = match obs {
@@ -650,11 +657,20 @@ fn evaluate_uncached(case: &Case, sig: &mut Option<String>) -> CaseResult {
                     rejections.push(format!("{route}: {}", truncate(&e.message, 80)));
                 }
                 Err(e) => {
+                    if *route == "prepare" && obs.cse_placeholder {
+                        *sig = Some("prepare-optimized-twice".into());
+                    }
                     return CaseResult::violation(format!("route {route} fails with {:?} ({}): {} although the literal query succeeds ({} rows){}", e.class, if e.planning { "planning" } else { "execution" }, e.message, expected.len(), repro())).labels(labels);
                 }
                 Ok(rows) => {
                     compared += 1;
+                    // an integer-valued DOUBLE where the literal form has a BIGINT is reported as a label, not as a row difference
+                    // (a placeholder of unknown type can make the planner pick DOUBLE for `abs($1)`; the values agree)
                     let mut diff = refsql::multiset_diff(expected, rows);
+                    if diff.is_some() && refsql::multiset_diff(&numeric_normal(expected), &numeric_normal(rows)).is_none() {
+                        labels.push(format!("numeric-type-drift:{route}"));
+                        diff = None;
+                    }
                     if diff.is_none() && !qlit.order_by.is_empty() {
                         let cols: Vec<String> = output_names(&qlit);
                         if cols.len() == rows.first().map(|r| r.len()).unwrap_or(cols.len()) {
@@ -669,7 +685,7 @@ fn evaluate_uncached(case: &Case, sig: &mut Option<String>) -> CaseResult {
                             }
                         }
                         if *route == "prepare" && obs.cse_placeholder {
-                            *sig = Some("prepare-cse-placeholder".into());
+                            *sig = Some("prepare-optimized-twice".into());
                         }
                         return CaseResult::violation(format!("route {route} returns other rows than the literal query: {d}{}", repro())).labels(labels);
                     }
@@ -689,6 +705,10 @@ fn evaluate_uncached(case: &Case, sig: &mut Option<String>) -> CaseResult {
         labels.dedup();
         CaseResult::pass().nontrivial(nt).labels(labels)
     }
+}
+
+fn numeric_normal(rows: &[Vec<Value>]) -> Vec<Vec<Value>> {
+    rows.iter().map(|r| r.iter().map(|v| if let Value::Int(i) = v { Value::Float(*i as f64) } else { v.clone() }).collect()).collect()
 }
 
 /// output column names of a query (aliases of the first select of the body)
